@@ -17,3 +17,13 @@ def remember(source: str) -> int:
 
 def mutate_cached(source: str) -> None:
     parse(source).body.sort()
+
+
+@functools.lru_cache(maxsize=1000)
+def first_statement(source: str) -> ast.AST:
+    return ast.parse(source).body[0]
+
+
+def is_first(source: str) -> bool:
+    # identity comparison between objects of two caches with different lifetimes
+    return first_statement(source) in parse(source).body
